@@ -389,10 +389,13 @@ fn get_and_validate_timeline_indices(
 
     if num_unique_timeline_indices != expected_unique_timeline_count as usize {
         let missing_string = {
-            (0..expected_unique_timeline_count).filter(|index| !ast_spans_by_timeline.contains_key(index))
-                .map(|index| index.to_string())
-                .collect::<Vec<_>>()
-                .join(", ")
+            // (there can be billions, so only list the first few)
+            let mut missing = (0..expected_unique_timeline_count).filter(|index| !ast_spans_by_timeline.contains_key(index));
+            let mut listed = missing.by_ref().take(10).map(|index| index.to_string()).collect::<Vec<_>>();
+            if missing.next().is_some() {
+                listed.push("...".to_string());
+            }
+            listed.join(", ")
         };
         let max_index_span = ast_spans_by_timeline.values().next_back().unwrap()[0];
         errors.set(emitter.emit(error!(
@@ -401,12 +404,11 @@ fn get_and_validate_timeline_indices(
         )));
     }
 
-    for timeline_index in 0..expected_unique_timeline_count {
-        match ast_spans_by_timeline.get(&timeline_index).map_or(0, |x| x.len()) {
+    for (&timeline_index, ast_spans) in &ast_spans_by_timeline {
+        match ast_spans.len() {
             0 => {},  // already handled by "missing timeline" check above
             1 => {},
             _ => {
-                let ast_spans = &ast_spans_by_timeline[&timeline_index];
                 let first_span = ast_spans[0];
                 for &redefinition_span in &ast_spans[1..] {
                     errors.set(emitter.emit(error!(
